@@ -594,6 +594,63 @@ def _norm_func(fi: int, f: dict, sigs: list) -> dict:
                 cargs, cret = sigs[callee]
                 emit({"k": "call", "fn": callee,
                       "args": [pick(t, refs[j % len(refs)]) for j, t in enumerate(cargs)]}, cret)
+            elif k == "idiom":
+                # two-instruction patterns whose second instruction LLVM folds away when the first
+                # carries a flag: an *added* flag changes the result on a defined input
+                i, f = _int(o.get("id", 0)) % 15, _int(o.get("f", 0))
+                ovf = [x for m, x in ((1, "nsw"), (2, "nuw")) if f & m]
+
+                def bin_(op, t, x, y, flags=()):
+                    return emit({"k": "bin", "op": op, "a": x, "b": y, "flags": list(flags)}, t)
+
+                def icmp_(p, t, x, y):
+                    return emit({"k": "icmp", "p": p, "ot": t, "a": x, "b": y}, "i1")
+
+                if i == 14:
+                    t = _ty(o.get("t"), FLOAT_T)
+                    r = emit({"k": "fbin", "op": "fadd", "a": pick(t, o.get("a", 0)), "b": pick(t, o.get("b", 0)),
+                              "fm": [x for m, x in ((1, "nnan"), (2, "ninf")) if f & m]}, t)
+                    emit({"k": "fcmp", "p": "uno", "ot": t, "a": r, "b": r}, "i1")
+                    return
+                if i in (11, 12):
+                    t = _ty(o.get("t"), ("i16", "i32", "i64"))
+                    nt = {"i16": "i8", "i32": "i16", "i64": "i32"}[t]
+                    r = emit({"k": "cast", "op": "trunc", "ot": t, "a": pick(t, o.get("a", 0)), "flags": ovf}, nt)
+                    emit({"k": "cast", "op": "zext" if i == 11 else "sext", "ot": nt, "a": r, "flags": []}, t)
+                    return
+                if i == 13:
+                    t = _ty(o.get("t"), ("i8", "i16", "i32"))
+                    wt = {"i8": "i16", "i16": "i32", "i32": "i64"}[t]
+                    a_ = pick(t, o.get("a", 0))
+                    r = emit({"k": "cast", "op": "zext", "ot": t, "a": a_, "flags": ["nneg"] if f & 1 else []}, wt)
+                    r2 = emit({"k": "cast", "op": "sext", "ot": t, "a": a_, "flags": []}, wt)
+                    icmp_("eq", wt, r, r2)
+                    return
+                t = _ty(o.get("t"), ("i8", "i16", "i32", "i64"))
+                a_, b_ = pick(t, o.get("a", 0)), pick(t, o.get("b", 0))
+                ex = ["exact"] if f & 1 else []
+                if i == 0:
+                    icmp_("sgt", t, bin_("add", t, a_, const(t, 1), ovf), a_)
+                elif i == 1:
+                    icmp_("uge", t, bin_("add", t, a_, b_, ovf), a_)
+                elif i == 2:
+                    icmp_("ule", t, bin_("sub", t, a_, b_, ovf), a_)
+                elif i == 3:
+                    bin_("sdiv", t, bin_("mul", t, a_, const(t, 3), ovf), const(t, 3))
+                elif i == 4:
+                    bin_("udiv", t, bin_("mul", t, a_, const(t, 3), ovf), const(t, 3))
+                elif i == 5:
+                    bin_("lshr", t, bin_("shl", t, a_, const(t, 2), ovf), const(t, 2))
+                elif i == 6:
+                    bin_("ashr", t, bin_("shl", t, a_, const(t, 2), ovf), const(t, 2))
+                elif i == 7:
+                    bin_("mul", t, bin_("udiv", t, a_, const(t, 4), ex), const(t, 4))
+                elif i == 8:
+                    bin_("shl", t, bin_("lshr", t, a_, const(t, 2), ex), const(t, 2))
+                elif i == 9:
+                    bin_("shl", t, bin_("ashr", t, a_, const(t, 2), ex), const(t, 2))
+                else:
+                    bin_("sub", t, bin_("or", t, a_, b_, ["disjoint"] if f & 1 else []), b_)
             else:
                 raise Bad(f"op kind {k!r}")
 
@@ -1040,7 +1097,7 @@ class Eval:
 # =============================================================================================
 # JIT worker (child process; never imports xdsl)
 WORKER_SRC = r'''
-import sys, json, struct, ctypes
+import sys, json, struct, ctypes, signal
 import llvmlite.binding as llvm
 try:
     llvm.initialize_native_target(); llvm.initialize_native_asmprinter()
@@ -1092,11 +1149,19 @@ def handle(req):
         cf = ctypes.CFUNCTYPE(CT[f["ret"]], *[CT[a] for a in f["args"]])(addr)
         for j, row in enumerate(f["inputs"]):
             say({"ev": "call", "f": fi, "j": j})
-            v = cf(*[dec(t, r) for t, r in zip(f["args"], row)])
+            a = [dec(t, r) for t, r in zip(f["args"], row)]
+            # CPU-time (not wall-clock) limit: a call that burns 0.5 s of user time hangs;
+            # SIGVTALRM's default action kills this process, the parent sees rc=-SIGVTALRM.
+            signal.setitimer(signal.ITIMER_VIRTUAL, 0.5)
+            v = cf(*a)
+            signal.setitimer(signal.ITIMER_VIRTUAL, 0)
             say({"ev": "ret", "f": fi, "j": j, "v": enc(f["ret"], v)})
     del eng
+say({"ev": "ready"})
 for line in sys.stdin:
+    signal.alarm(900)   # never outlive a dead parent in a native infinite loop
     handle(json.loads(line))
+    signal.alarm(0)
     say({"ev": "done"})
 '''
 
@@ -1106,6 +1171,11 @@ class Worker:
         self.p = None
         self.errf = None
         self.buf = b""
+        self.lat_max = 0.0
+
+    def timeout(self) -> float:
+        """Adaptive per-request budget: 30x the slowest completed request, within [8 s, 90 s]."""
+        return min(90.0, max(8.0, 30.0 * self.lat_max))
 
     def start(self):
         self.errf = tempfile.TemporaryFile()
@@ -1113,6 +1183,9 @@ class Worker:
         self.p = subprocess.Popen([sys.executable, "-c", WORKER_SRC], stdin=subprocess.PIPE,
                                   stdout=subprocess.PIPE, stderr=self.errf, env=env, bufsize=0)
         self.buf = b""
+        r = self._collect(time.time() + 300.0, until="ready")
+        if r["status"] != "done":
+            raise RuntimeError(f"JIT worker did not start: {r['status']} {r['stderr'][-500:]}")
 
     def stop(self):
         if self.p is not None:
@@ -1149,13 +1222,20 @@ class Worker:
             res = {"status": "crash", "events": events, "rc": rc, "stderr": self._stderr_tail()}
             self.stop()
             return res
-        t_end = time.time() + timeout
+        t0 = time.time()
+        res = self._collect(t0 + timeout, until="done")
+        if res["status"] == "done":
+            self.lat_max = max(self.lat_max, time.time() - t0)
+        return res
+
+    def _collect(self, t_end: float, until: str) -> dict:
+        events: list = []
         fd = self.p.stdout.fileno()
         while True:
             while b"\n" in self.buf:
                 line, self.buf = self.buf.split(b"\n", 1)
                 ev = json.loads(line)
-                if ev["ev"] == "done":
+                if ev["ev"] == until:
                     return {"status": "done", "events": events, "rc": None, "stderr": ""}
                 events.append(ev)
             left = t_end - time.time()
@@ -1177,7 +1257,6 @@ class Worker:
 
 _WORKER = Worker()
 atexit.register(_WORKER.stop)
-TIMEOUT_S = 120.0
 
 
 # =============================================================================================
@@ -1288,13 +1367,14 @@ def _expected(plan: dict):
     return per, stats
 
 
-def _native(plan: dict, ir: str, per: list, opt: int):
+def _native(plan: dict, ir: str, per: list, opt: int, retry: bool = True):
     req = {"ir": ir, "opt": opt,
            "funcs": [{"name": f["name"], "args": f["args"], "ret": f["ret"],
                       "inputs": [b for b, _ in rows]} for f, rows in zip(plan["funcs"], per)]}
-    res = _WORKER.run(req, TIMEOUT_S)
-    if res["status"] == "timeout":
-        res = _WORKER.run(req, 2 * TIMEOUT_S)
+    t = _WORKER.timeout()
+    res = _WORKER.run(req, t)
+    if res["status"] == "timeout" and retry:
+        res = _WORKER.run(req, 3 * t)     # a hang must reproduce with a 3x budget to count
     return res
 
 
@@ -1322,6 +1402,8 @@ def _compare(plan: dict, per: list, res: dict):
                 return ("wrong", fi, j, exp, got[(fi, j)])
     if res["status"] == "crash":
         fi, j = last_call if last_call else (-1, -1)
+        if last_call and res["rc"] == -26:      # SIGVTALRM: CPU-time limit of the native call
+            return ("timeout", stage, fi, j)
         return ("crash", stage, fi, j, res["rc"])
     if res["status"] == "timeout":
         fi, j = last_call if last_call else (-1, -1)
@@ -1361,7 +1443,31 @@ def _probe_plan(o: dict, in_tys: list, samples: list) -> dict:
     return {"funcs": [f], "inputs": [], "opt": 0, "text": False, "_samples": samples}
 
 
-def _localize(plan: dict, fi: int, bits: list) -> dict:
+_FLAG_RE = re.compile(r"= (add|sub|mul|shl|udiv|sdiv|lshr|ashr|or|trunc|zext|fadd|fsub|fmul|fdiv|frem)"
+                      r"((?: (?:nsw|nuw|exact|disjoint|nneg|nnan|ninf))*) ")
+
+
+def _flag_audit(plan: dict, ir: str) -> dict | None:
+    """Attribution aid (only used after a semantic mismatch): an instruction kind whose emitted
+    flag sets differ from the source ops' flag sets."""
+    want: dict[tuple, int] = {}
+    for f in plan["funcs"]:
+        for b in f["blocks"]:
+            for o in b["ops"]:
+                if o["k"] in ("bin", "fbin", "cast") and o["op"] in _FLAG_RE.pattern:
+                    key = (o["op"], " ".join(sorted(o.get("flags") or o.get("fm") or [])))
+                    want[key] = want.get(key, 0) + 1
+    got: dict[tuple, int] = {}
+    for m in _FLAG_RE.finditer(ir):
+        key = (m.group(1), " ".join(sorted(m.group(2).split())))
+        got[key] = got.get(key, 0) + 1
+    for key in sorted(got):
+        if got[key] > want.get(key, 0) and key[1]:
+            return {"op": "llvm." + key[0], "flag": "emitted:" + key[1].replace(" ", ",")}
+    return None
+
+
+def _localize(plan: dict, fi: int, bits: list, ir: str = "") -> dict:
     """Which single operation, run in isolation on the operand values it saw, is mistranslated?"""
     f = plan["funcs"][fi]
     ev = Eval(plan)
@@ -1419,6 +1525,9 @@ def _localize(plan: dict, fi: int, bits: list) -> dict:
             v = _compare(pp, [rows], _native(pp, ir, [rows], opt))
             if v is not None and v[0] in ("wrong", "crash"):
                 return _desc(o)
+    audit = _flag_audit(plan, ir) if ir else None
+    if audit:
+        return audit
     reachable = set()
     todo = [fi]
     while todo:
@@ -1488,7 +1597,7 @@ def oracle(h, recipe) -> None:
             h.count("inputs:" + k_, v_)
     if stats["steplimit"]:
         h.inconclusive("reference_step_limit", stats["steplimit"])
-    res = _native(plan, ir, per, plan["opt"])
+    res = _native(plan, ir, per, plan["opt"], retry=not getattr(h, "_shrinking", False))
     v = _compare(plan, per, res)
     if v is None:
         h.count("native_calls", sum(len(r) for r in per))
@@ -1516,7 +1625,7 @@ def oracle(h, recipe) -> None:
     fi, j = (v[1], v[2]) if v[0] == "wrong" else (v[2], v[3])
     f = plan["funcs"][fi]
     bits = per[fi][j][0]
-    culprit = _localize(plan, fi, bits)
+    culprit = _localize(plan, fi, bits, ir)
     sig = {"check": "result", **culprit}
     args_s = ", ".join(_show(t, x) for t, x in zip(f["args"], bits))
     if v[0] == "wrong":
@@ -1569,7 +1678,22 @@ def gen_op(rng: random.Random, seen: list) -> dict:
 
     kind = _wchoice(rng, (("bin", 30), ("icmp", 10), ("fbin", 8), ("fcmp", 6), ("cast", 15),
                           ("select", 6), ("const", 5), ("fun1", 3), ("fun2", 1), ("mem", 10),
-                          ("call", 6)))
+                          ("call", 6), ("idiom", 8)))
+    if kind == "idiom":
+        i = rng.randrange(0, 15)
+        if i == 14:
+            t = ty(FLOAT_T)
+            seen.append("i1")
+        elif i in (11, 12):
+            t = ty(("i16", "i32", "i64"))
+            seen.append(t)
+        elif i == 13:
+            t = ty(("i8", "i16", "i32"))
+            seen.append("i1")
+        else:
+            t = ty(("i8", "i16", "i32", "i64"))
+            seen.append("i1" if i < 3 else t)
+        return {"k": "idiom", "id": i, "t": t, "a": ref(), "b": ref(), "f": rng.randrange(0, 4)}
     if kind == "bin":
         t = ty(tuple(INT_W))
         op = rng.choice(INT_BIN)
